@@ -1,0 +1,18 @@
+//go:build verif
+
+package rtsp
+
+// Verification hooks (only with -tags verif): expose what a session extracts
+// from an SDP text, so a harness can compare it with its model.
+
+// VerifParseSdp runs Session.parseSdp on raw and getControlPath on the video and
+// audio control attributes it found.
+func VerifParseSdp(raw string) (ok bool, vPath string, vOK bool, aPath string, aOK bool) {
+	s := &Session{}
+	if err := s.parseSdp(raw); err != nil {
+		return false, "", false, "", false
+	}
+	v, verr := getControlPath(s.vControl)
+	a, aerr := getControlPath(s.aControl)
+	return true, v, verr == nil, a, aerr == nil
+}
